@@ -23,7 +23,7 @@ import OG.C19.Model
 
 set_option maxRecDepth 100000
 namespace OG.C19
-open OG.Gen.C19 (RouteFact routes preMuxPrefixes)
+open OG.Gen.C19 (RouteFact routes preMuxPrefixes preMuxPrefixesC)
 
 /-! ## Part 1 — every endpoint is guarded -/
 
@@ -39,7 +39,7 @@ structure Endpoint where
 deriving DecidableEq, Repr
 
 /-- a registered pattern is shadowed when a pre-mux prefix is a prefix of it. -/
-def shadowed (r : RouteFact) : Bool := preMuxPrefixes.any (fun p => startsWith r.pattern p)
+def shadowed (r : RouteFact) : Bool := preMuxPrefixesC.any (fun p => p.isPrefixOf r.patternC)
 
 def endpoints : List Endpoint :=
   routes.map (fun r => ⟨r.method, r.pattern, r.handler, r.cond, r.sig == "user", shadowed r⟩)
@@ -131,7 +131,8 @@ def all_routes_authorize_full : Prop :=
 theorem all_routes_authorize_false : ¬ all_routes_authorize_full := by
   intro h
   have := h ⟨"lib/util/lifted/influx/httpd/handler.go:AddPrometheusAPIRoutes", "", "prometheus-create-tsdb", "POST",
-    "/api/v1/tsdb/{tsdb}", "false", "true", "servePromCreateTSDB", "user", []⟩ (by decide) (by decide) (by decide)
+    "/api/v1/tsdb/{tsdb}", "false", "true", "servePromCreateTSDB", "user", [], "AddPrometheusAPIRoutes", false,
+    ['/', 'a', 'p', 'i', '/', 'v', '1', '/', 't', 's', 'd', 'b', '/', '{', 't', 's', 'd', 'b', '}']⟩ (by decide) (by decide) (by decide)
   revert this; decide
 
 theorem knownNoAuthz_all_real :
@@ -309,7 +310,7 @@ theorem authenticate_denies (w : World) (r : Req)
   | denyThenInner s => exact absurd h (authenticate_no_fallthrough w r s)
 
 /-- … and every such request is answered 401 on every wrapped, live, non-pre-flight route. -/
-theorem decide_denies_unidentified (w : World) (c : Cfg) (method path : String) (req : Req)
+theorem decide_denies_unidentified (w : World) (c : Cfg) (method : String) (path : List Char) (req : Req)
     (db : String) (dbx : Bool) (q : List Stmt) (rt : RouteFact)
     (ha : w.authEnabled = true) (hadm : w.adminExists = true)
     (hd : dispatch c method path = .route rt) (hsig : rt.sig = "user") (hm : method ≠ "OPTIONS")
@@ -481,36 +482,37 @@ theorem authorizeStmt_sound (u : User) (database : String) (ps : List ExecPriv)
         | tail _ hmem => exact ih h p hmem
       · simp [hz] at h
 
-/-! ## end to end on the regenerated table (non-vacuity of the hypotheses above) -/
+/-! ## end to end on the regenerated table (non-vacuity of the hypotheses above; paths are `List Char`) -/
 
 def basicCfg : Cfg := ⟨false, false, true, false⟩
 def readStmt : List Stmt := [⟨"SelectStatement", "", [⟨false, "", true, .read⟩]⟩]
 
-/-- no credentials on a wrapped route: 401 (instance of `decide_denies_unidentified`). -/
-example : decide demoWorld basicCfg "POST" "/write" ⟨"", "", .absent⟩ "db0" true [] = .d401 := by decide +kernel
-/-- read-only user: may query, may not write; write-only user: the reverse. -/
-example : decide demoWorld basicCfg "GET" "/query" ⟨"", "", .basic "ro" "p"⟩ "db0" true readStmt = .pass := by decide +kernel
-example : decide demoWorld basicCfg "POST" "/write" ⟨"", "", .basic "ro" "p"⟩ "db0" true [] = .d403 := by decide +kernel
-example : decide demoWorld basicCfg "POST" "/write" ⟨"", "", .basic "wo" "q"⟩ "db0" true [] = .pass := by decide +kernel
-example : decide demoWorld basicCfg "GET" "/query" ⟨"", "", .basic "wo" "q"⟩ "db0" true readStmt = .d403 := by decide +kernel
-/-- a user of another database is refused on this one. -/
-example : decide demoWorld basicCfg "POST" "/write" ⟨"", "", .basic "wo" "q"⟩ "db1" true [] = .d403 := by decide +kernel
-/-- control endpoints: administrators only. -/
-example : decide demoWorld basicCfg "POST" "/debug/ctrl" ⟨"", "", .basic "wo" "q"⟩ "" false [] = .d403 := by decide +kernel
-example : decide demoWorld basicCfg "POST" "/debug/ctrl" ⟨"", "", .basic "root" "r"⟩ "" false [] = .pass := by decide +kernel
-/-- the model reproduces the findings: these answer without any credentials. -/
-example : decide demoWorld basicCfg "POST" "/failpoint" ⟨"", "", .absent⟩ "" false [] = .pass := by decide +kernel
-example : decide demoWorld basicCfg "GET" "/debug/vars" ⟨"", "", .absent⟩ "" false [] = .pass := by decide +kernel
-example : decide demoWorld basicCfg "GET" "/debug/query" ⟨"", "", .absent⟩ "" false [] = .pass := by decide +kernel
-example : decide demoWorld basicCfg "GET" "/debug/pprof/" ⟨"", "", .absent⟩ "" false [] = .pass := by decide +kernel
-example : decide demoWorld ⟨false, false, true, true⟩ "GET" "/runtime_config" ⟨"", "", .absent⟩ "" false [] = .pass := by decide +kernel
-/-- … and this one acts for any authenticated user. -/
-example : decide demoWorld basicCfg "POST" "/api/v1/tsdb/x" ⟨"", "", .basic "ro" "p"⟩ "" false [] = .pass := by decide +kernel
-/-- unregistered path / method. -/
-example : decide demoWorld basicCfg "GET" "/nope" ⟨"", "", .absent⟩ "" false [] = .d404 := by decide +kernel
-example : decide demoWorld basicCfg "PUT" "/query" ⟨"", "", .absent⟩ "" false [] = .d405 := by decide +kernel
-/-- the logkeeper API exists only for that product type. -/
-example : decide demoWorld basicCfg "GET" "/api/v1/repository" ⟨"", "", .absent⟩ "" false [] = .d404 := by decide +kernel
-example : decide demoWorld ⟨true, false, true, false⟩ "GET" "/api/v1/repository" ⟨"", "", .absent⟩ "" false [] = .d401 := by decide +kernel
+-- no credentials on a wrapped route: 401 (instance of `decide_denies_unidentified`).
+example : decide demoWorld basicCfg "POST" ['/', 'w', 'r', 'i', 't', 'e'] ⟨"", "", .absent⟩ "db0" true [] = .d401 := by decide
+-- read-only user: may query, may not write; write-only user: the reverse.
+example : decide demoWorld basicCfg "GET" ['/', 'q', 'u', 'e', 'r', 'y'] ⟨"", "", .basic "ro" "p"⟩ "db0" true readStmt = .pass := by decide
+example : decide demoWorld basicCfg "POST" ['/', 'w', 'r', 'i', 't', 'e'] ⟨"", "", .basic "ro" "p"⟩ "db0" true [] = .d403 := by decide
+example : decide demoWorld basicCfg "POST" ['/', 'w', 'r', 'i', 't', 'e'] ⟨"", "", .basic "wo" "q"⟩ "db0" true [] = .pass := by decide
+example : decide demoWorld basicCfg "GET" ['/', 'q', 'u', 'e', 'r', 'y'] ⟨"", "", .basic "wo" "q"⟩ "db0" true readStmt = .d403 := by decide
+-- a user of another database is refused on this one.
+example : decide demoWorld basicCfg "POST" ['/', 'w', 'r', 'i', 't', 'e'] ⟨"", "", .basic "wo" "q"⟩ "db1" true [] = .d403 := by decide
+-- the model reproduces the findings: these answer without any credentials.
+example : decide demoWorld basicCfg "POST" ['/', 'f', 'a', 'i', 'l', 'p', 'o', 'i', 'n', 't'] ⟨"", "", .absent⟩ "" false [] = .pass := by decide
+example : decide demoWorld basicCfg "GET" ['/', 'd', 'e', 'b', 'u', 'g', '/', 'v', 'a', 'r', 's'] ⟨"", "", .absent⟩ "" false [] = .pass := by decide
+example : decide demoWorld basicCfg "GET" ['/', 'd', 'e', 'b', 'u', 'g', '/', 'q', 'u', 'e', 'r', 'y'] ⟨"", "", .absent⟩ "" false [] = .pass := by decide
+example : decide demoWorld basicCfg "GET" ['/', 'd', 'e', 'b', 'u', 'g', '/', 'p', 'p', 'r', 'o', 'f', '/'] ⟨"", "", .absent⟩ "" false [] = .pass := by decide
+
+-- control endpoints: administrators only.
+example : decide demoWorld basicCfg "POST" ['/', 'd', 'e', 'b', 'u', 'g', '/', 'c', 't', 'r', 'l'] ⟨"", "", .basic "wo" "q"⟩ "" false [] = .d403 := by decide
+example : decide demoWorld basicCfg "POST" ['/', 'd', 'e', 'b', 'u', 'g', '/', 'c', 't', 'r', 'l'] ⟨"", "", .basic "root" "r"⟩ "" false [] = .pass := by decide
+example : decide demoWorld ⟨false, false, true, true⟩ "GET" ['/', 'r', 'u', 'n', 't', 'i', 'm', 'e', '_', 'c', 'o', 'n', 'f', 'i', 'g'] ⟨"", "", .absent⟩ "" false [] = .pass := by decide
+-- … this one acts for any authenticated user.
+example : decide demoWorld basicCfg "POST" ['/', 'a', 'p', 'i', '/', 'v', '1', '/', 't', 's', 'd', 'b', '/', 'x'] ⟨"", "", .basic "ro" "p"⟩ "" false [] = .pass := by decide
+-- unregistered path / method.
+example : decide demoWorld basicCfg "GET" ['/', 'n', 'o', 'p', 'e'] ⟨"", "", .absent⟩ "" false [] = .d404 := by decide
+example : decide demoWorld basicCfg "PUT" ['/', 'q', 'u', 'e', 'r', 'y'] ⟨"", "", .absent⟩ "" false [] = .d405 := by decide
+-- the logkeeper API exists only for that product type.
+example : decide demoWorld basicCfg "GET" ['/', 'a', 'p', 'i', '/', 'v', '1', '/', 'r', 'e', 'p', 'o', 's', 'i', 't', 'o', 'r', 'y'] ⟨"", "", .absent⟩ "" false [] = .d404 := by decide
+example : decide demoWorld ⟨true, false, true, false⟩ "GET" ['/', 'a', 'p', 'i', '/', 'v', '1', '/', 'r', 'e', 'p', 'o', 's', 'i', 't', 'o', 'r', 'y'] ⟨"", "", .absent⟩ "" false [] = .d401 := by decide
 
 end OG.C19
